@@ -9,7 +9,7 @@ META = {
             'with generated words) are written to scratch files; the answer key is produced by notebooks/make_notebook.py:apply_command '
             'exactly as the notebook generator does and handed to the matching check_* function; the verdict must be OK; additionally '
             'every code cell of the shipped notebooks/with-answers/*.ipynb that calls a checker is executed; non-trivial = reference with '
-            '>=2 states / >=2 rules; distinct by (exercise, reference); also declared epsilon markers, DFAs with states start / accept, the answer-key printers compared with Gamba.Model.Keys, the whole text pipeline compared with Gamba.Model.CheckText; fixed witnesses of the five recorded findings',
+            '>=2 states / >=2 rules; distinct by (exercise, reference); also declared epsilon markers, DFAs with states start / accept, the answer-key printers compared with Gamba.Model.Keys, the whole text pipeline compared with Gamba.Model.CheckText; fixed witnesses of the recorded findings; CYK / derivation references with one variable renamed to a capital letter outside A-Z (judged on the code alone: the Lean text model is ASCII-only)',
     'assumptions': ['reference objects are valid; grammars non-degenerate (every variable derives a non-empty word)',
                     'known findings (see KNOWN_FINDINGS.json): dfa2regexp keys over non-letter alphabets, nfa2dfa keys for NFAs whose input '
                     'alphabet contains "_", Chomsky phase results needing more than 26 variables'],
